@@ -38,8 +38,10 @@ Fixpoint run_lactions (p : nat) (acts : list laction) (jv : fjvals) : fjvals * o
 
 Definition ls_hook (pick : lscript -> nat -> list laction) (n : nat) (hs : lscripts) : lhook float :=
   fun t ids em cf k jv =>
-    let p := pos_of n t in
-    match lookup p hs with Some ls => run_lactions p (pick ls k) jv | None => (jv, None) end.
+    match py_pos n t with
+    | None => (jv, None)                     (* t outside the span: no script is keyed by it *)
+    | Some p => match lookup p hs with Some ls => run_lactions p (pick ls k) jv | None => (jv, None) end
+    end.
 Definition ls_hpre := ls_hook (fun ls _ => ls_pre ls).
 Definition ls_hbefore := ls_hook (fun ls k => nth (k - 1) (ls_before ls) []).
 Definition ls_hafter := ls_hook (fun ls k => nth (k - 1) (ls_after ls) []).
@@ -50,13 +52,12 @@ Definition ls_hpost := ls_hook (fun ls _ => ls_post ls).
    exception, whatever errors / catch_first_error say -> run_actions with catch = false *)
 Definition subscripts := list (sid * scripts).
 Definition ls_sev (n : nat) (ss : subscripts) : sid -> hook float := fun id t em cf k v =>
-  let p := pos_of n t in
-  match lookup id ss with
-  | Some sc => match lookup p sc with
-               | Some ps => run_actions false p (nth (k - 1) (spasses ps) []) v
-               | None => (v, None)
-               end
-  | None => (v, None)
+  match py_pos n t, lookup id ss with
+  | Some p, Some sc => match lookup p sc with
+                       | Some ps => run_actions false p (nth (k - 1) (spasses ps) []) v
+                       | None => (v, None)
+                       end
+  | _, _ => (v, None)
   end.
 
 Definition fcomp := comp float.
